@@ -292,4 +292,9 @@ Section Proofs.
   Proof.
     intros H1 H2 e. rewrite (run_crates_spec _ _ _ H1 e), (closure_spec _ _ _ _ H2 e). reflexivity.
   Qed.
+  Lemma same_edges_sound (a b : rel) : same_edges eqb a b = true -> same_set a b.
+  Proof.
+    unfold same_edges, subset_edges. intros H. apply andb_prop in H as [H1 H2]. rewrite forallb_forall in H1, H2.
+    intros e. split; intros He; apply mem_edge_In; [apply H1 | apply H2]; exact He.
+  Qed.
 End Proofs.
